@@ -2,6 +2,8 @@ import MythVerif.Proofs.WsQueueTsoStepO1
 import MythVerif.Proofs.WsQueueTsoStepO2
 import MythVerif.Proofs.WsQueueTsoStepO3
 import MythVerif.Proofs.WsQueueTsoStepO4
+import MythVerif.Proofs.WsQueueTsoStepU1
+import MythVerif.Proofs.WsQueueTsoStepU2
 import MythVerif.Proofs.WsQueueTsoStepT1
 import MythVerif.Proofs.WsQueueTsoStepT2
 import MythVerif.Proofs.WsQueueTsoStepT3
@@ -9,6 +11,12 @@ import MythVerif.Proofs.WsQueueTsoStepF1
 import MythVerif.Proofs.WsQueueTsoStepF2
 import MythVerif.Proofs.WsQueueTsoStepF3
 import MythVerif.Proofs.WsQueueTsoStepF4
+import MythVerif.Proofs.WsQueueTsoStepF5
+import MythVerif.Proofs.WsQueueTsoStepF6
+import MythVerif.Proofs.WsQueueTsoStepF7
+import MythVerif.Proofs.WsQueueTsoStepP1
+import MythVerif.Proofs.WsQueueTsoStepP2
+import MythVerif.Proofs.WsQueueTsoStepK1
 /-! The TSO invariant is inductive; it holds in every reachable state of the store-buffer machine
     with the fences of the source. -/
 namespace MythVerif.WsqTso
@@ -36,6 +44,13 @@ theorem stepO_inv (s s' : St) : Inv s → stepO s = some s' → Inv s' := by
   | po7 => exact o_po7 s s' h hpc hs
   | po8 => exact o_po8 s s' h hpc hs
   | po9 => exact o_po9 s s' h hpc hs
+  | stuckL => simp [stepO, hpc] at hs
+  | ptl e => exact o_ptl s s' e h hpc hs
+  | pt1 e => exact o_pt1 s s' e h hpc hs
+  | pt6 e => exact o_pt6 s s' e h hpc hs
+  | pt7 e b => exact o_pt7 s s' e b h hpc hs
+  | pt8 e b => exact o_pt8 s s' e b h hpc hs
+  | pt9 => exact o_pt9 s s' h hpc hs
 
 theorem stepT_inv (s s' : St) (p : Pid) : Inv s → stepT s p = some s' → Inv s' := by
   intro h hs
@@ -51,9 +66,20 @@ theorem stepT_inv (s s' : St) (p : Pid) : Inv s → stepT s p = some s' → Inv 
   | tk4 r => exact t_tk4 s s' p r h hpc hs
   | tk5 b => exact t_tk5 s s' p b h hpc hs
   | tk6 => exact t_tk6 s s' p h hpc hs
+  | tpl e => exact t_tpl s s' p e h hpc hs
+  | tp1 e => exact t_tp1 s s' p e h hpc hs
+  | tp1b e => exact t_tp1b s s' p e h hpc hs
+  | tp2 e b => exact t_tp2 s s' p e b h hpc hs
+  | tp3 e => exact t_tp3 s s' p e h hpc hs
+  | tp4 ok => exact t_tp4 s s' p ok h hpc hs
+  | kq0 => exact t_kq0 s s' p h hpc hs
+  | kq1 t => exact t_kq1 s s' p t h hpc hs
+  | pk1 => exact t_pk1 s s' p h hpc hs
+  | pk2 b => exact t_pk2 s s' p b h hpc hs
+  | pk3 b => exact t_pk3 s s' p b h hpc hs
 
 set_option maxHeartbeats 1000000 in
-theorem callO_inv (s s' : St) (pc : OPc) (hpc : (∃ e, pc = .pu0 e) ∨ pc = .pq) :
+theorem callO_inv (s s' : St) (pc : OPc) (hpc : (∃ e, pc = .pu0 e) ∨ pc = .pq ∨ (∃ e, pc = .ptl e)) :
     Inv s → (match s.opc with | .idle => some { s with opc := pc } | _ => none) = some s' → Inv s' := by
   intro h hs
   split at hs
@@ -61,20 +87,38 @@ theorem callO_inv (s s' : St) (pc : OPc) (hpc : (∃ e, pc = .pu0 e) ∨ pc = .p
     simp at hs; subst hs
     cases h
     simp only [heq, ownerLocked, carry, resetting, ownerFlight] at *
-    rcases hpc with ⟨e, rfl⟩ | rfl
+    rcases hpc with ⟨e, rfl⟩ | rfl | ⟨e, rfl⟩
     all_goals tso_finish
   · simp at hs
 
 set_option maxHeartbeats 1000000 in
-theorem callT_inv (s s' : St) (p : Pid) :
-    Inv s → (match s.tpc p with | .idle => some { s with tpc := upd s.tpc p .tq0 } | _ => none) = some s' → Inv s' := by
+theorem callT_inv (s s' : St) (p : Pid) (pc : TPc) (hpc : pc = .tq0 ∨ pc = .kq0 ∨ ∃ e, pc = .tpl e) :
+    Inv s → (match s.tpc p with | .idle => some { s with tpc := upd s.tpc p pc } | _ => none) = some s' → Inv s' := by
   intro h hs
   split at hs
   · rename_i heq
     simp at hs; subst hs
     cases h
     simp only [ownerLocked, carry, resetting, ownerFlight] at *
-    tso_finish
+    rcases hpc with rfl | rfl | ⟨e, rfl⟩
+    all_goals tso_finish
+  · simp at hs
+
+/-- a drain from the buffer of a thief / passer -/
+theorem f_T (s s' : St) (p : Pid) : Inv s → step s (.flushT p) = some s' → Inv s' := by
+  intro h hs
+  simp only [step] at hs
+  split at hs
+  · rename_i st rest hb
+    obtain ⟨hl, hcase⟩ := thief_buf_shape s h p st rest hb
+    simp at hs; subst hs
+    rcases hcase with ⟨b, hpc, rfl, rfl, hlb, htr⟩ | ⟨hpc, rfl, rfl, htr⟩ | ⟨e, hpc, rfl, rfl⟩ |
+      ⟨e, ok, hpc, rfl, rfl⟩ | ⟨e, ok, hpc, rfl, rfl, hp⟩
+    · exact f_T_inc s p b h hl hb hpc hlb htr
+    · exact f_T_rb s p h hl hb hpc htr
+    · exact f_T_ptr3 s p e h hl hb hpc
+    · exact f_T_ptr4 s p e ok h hl hb hpc
+    · exact f_T_baseI s p e ok h hl hb hpc hp
   · simp at hs
 
 theorem flushO_inv (s s' : St) : Inv s → step s .flushO = some s' → Inv s' := by
@@ -88,16 +132,20 @@ theorem flushO_inv (s s' : St) : Inv s → step s .flushO = some s' → Inv s' :
     | base v => exact f_O_base s s' v rest h hb hs.symm
     | ptr i x => exact f_O_ptr s s' i x rest h hb hs.symm
     | unlock => exact f_O_unlock s s' rest h hb hs.symm
+    | baseI v e => exact f_O_baseI s s' v e rest h hb hs.symm
   · simp at hs
 
 theorem step_inv (s : St) (l : Lbl) (s' : St) : Inv s → step s l = some s' → Inv s' := by
   intro h hs
   cases l with
   | oPush e => exact callO_inv s s' _ (Or.inl ⟨e, rfl⟩) h hs
-  | oPop => exact callO_inv s s' _ (Or.inr rfl) h hs
+  | oPop => exact callO_inv s s' _ (Or.inr (Or.inl rfl)) h hs
+  | oPut e => exact callO_inv s s' _ (Or.inr (Or.inr ⟨e, rfl⟩)) h hs
   | o => exact stepO_inv s s' h hs
   | flushO => exact flushO_inv s s' h hs
-  | tTake p => exact callT_inv s s' p h hs
+  | tTake p => exact callT_inv s s' p _ (Or.inl rfl) h hs
+  | tPass p e => exact callT_inv s s' p _ (Or.inr (Or.inr ⟨e, rfl⟩)) h hs
+  | tPeek p => exact callT_inv s s' p _ (Or.inr (Or.inl rfl)) h hs
   | t p => exact stepT_inv s s' p h hs
   | flushT p => exact f_T s s' p h hs
 
